@@ -24,6 +24,8 @@ def run(ctx) -> None:
     jsonrules.rule_J6(ctx)
     ctx.rules_run.append("K1")
     jsonrules.rule_K1(ctx)      # what _dump_float emits reads back as the same number: specials, both zeros, whole numbers, float32 values
+    ctx.rules_run.append("J9")
+    jsonrules.rule_J9(ctx)      # numbers found for enum fields stay open (no closed EnumClass(number))
     ctx.rules_run += ["J7", "J8"]
     jsonrules.rule_J7(ctx)      # the rebuilt message encodes to the same bytes only if containers keep their order
     jsonrules.rule_J8(ctx)
